@@ -204,14 +204,16 @@ def validate_traces(run, items):
 def gen(run):
     thorough = run.tier == "thorough"
     # (family, MaxLen for which requests are issued at every position, MaxLen for lexing + opening only)
-    plan = [("chars", 2 if not thorough else 3, 3 if not thorough else 4), ("lexemes", 2 if not thorough else 3, 2 if not thorough else 3),
+    plan = [("chars", 2 if not thorough else 3, 3), ("lexemes", 2 if not thorough else 3, 2 if not thorough else 3),
             ("comments", 3 if not thorough else 4, 4 if not thorough else 5)]
+    if thorough:
+        plan.append(("chars-start", 0, 4))      # every string of length 4 at a line start: tokenisation and opening only
     cases = []
     texts = {}
     if os.environ.get("C06_ONLY"):
         plan = [x for x in plan if x[0] == os.environ["C06_ONLY"]]
     for fam, nreq, nall in plan:
-        r = run.tlc("Input", cfg(fam, nall), workers=16, timeout=3000)
+        r = run.tlc("Input", cfg(fam, nall), workers=16, timeout=3000, extra_args=("-maxSetSize", "5000000"))
         for c in r.json:
             b = to_bytes(c["t"])
             cid = "%s-%d" % (fam, len(cases))
